@@ -65,7 +65,7 @@ Record cfg := mkCfg {
                                      bodies have the modelled shape (translator verdict, see translate/c05_facts.py) *)
   c_like_cls : bop; c_ilike_cls : bop;
   c_rlike_fn : string; c_startswith_fn : string; c_endswith_fn : string; c_substr_fn : string;
-  c_getitem_lit_off : Z;          (* net amount added to a literal index in the emitted text *)
+  c_getitem_lit_off : Z;          (* amount added to a literal index k: emitted as (k + off) *)
   c_getitem_col_off : Z;          (* ... to a Column index that contains no numeric literal *)
   c_getitem_numkey_off : Z }.     (* ... to a Column index that contains one (element_at_using_brackets) *)
 
@@ -131,7 +131,7 @@ Fixpoint build (c : cfg) (t : uexpr) : sexpr :=
   | UWhen bs => SCase (buildb c bs)
   | UCast a ty => SCast (build c a) ty
   | UAlias a _ => build c a
-  | UGetItemLit a k => SBracket (build c a) (SLit (VInt (Z.of_nat k + c_getitem_lit_off c)))
+  | UGetItemLit a k => SBracket (build c a) (offset_key (c_getitem_lit_off c) (SLit (VInt (Z.of_nat k))))
   | UGetItemCol a i =>
       SBracket (build c a) (offset_key (getitem_off c (build c i)) (build c i))
   end
@@ -165,7 +165,7 @@ Fixpoint denote (t : uexpr) : sexpr :=
   | UWhen bs => SCase (denoteb bs)
   | UCast a ty => SCast (denote a) ty
   | UAlias a _ => denote a
-  | UGetItemLit a k => SBracket (denote a) (SLit (VInt (Z.of_nat k + 1)))
+  | UGetItemLit a k => SBracket (denote a) (SBin Add (SLit (VInt (Z.of_nat k))) (SLit (VInt 1)))
   | UGetItemCol a i => SBracket (denote a) (SBin Add (denote i) (SLit (VInt 1)))
   end
 with denoteb (bs : ubranches) : branches :=
@@ -272,7 +272,9 @@ Proof.
            end; try reflexivity.
   - (* isNotNull *) destruct (ueval en a); reflexivity.
   - (* getItem literal *) rewrite abase_denote. destruct (ubase a); [|reflexivity].
-    destruct (arr_lookup (e_arrs en) s); [|reflexivity]. apply index_shift. lia.
+    cbn [bin3 arith num_of is_int andb mk_num].
+    destruct (arr_lookup (e_arrs en) s); [|reflexivity].
+    replace (Z.of_nat k * Z.pos 1 + 1 * Z.pos 1) with (Z.of_nat k + 1) by lia. apply index_shift. lia.
   - (* getItem column *) rewrite abase_denote. destruct (ubase a); [|reflexivity].
     destruct (ueval en c) eqn:E; cbn [bin3 arith num_of is_int andb mk_num]; try reflexivity.
     destruct (arr_lookup (e_arrs en) s); [|reflexivity].
